@@ -204,14 +204,14 @@ func (f *FnVC) noteSite(st *State, c *ssa.CallCommon, display string, args []Val
 		switch ac.Action {
 		case "assert":
 			env := f.siteEnv(st, args, c)
-			v, err := f.evalSpec(env, ac.Clause.Expr, types.Typ[types.Bool])
-			if err != nil {
-				f.E.specError(ac.Clause, err)
-				continue
-			}
 			lbl := ac.Clause.Label
 			if lbl == "" {
 				lbl = ac.Pattern
+			}
+			v, err := f.evalSpec(env, ac.Clause.Expr, types.Typ[types.Bool])
+			if err != nil {
+				f.obligeSpecError("at-call", lbl, ac.Clause, err)
+				continue
 			}
 			o := f.oblige("at-call", lbl, st, v.T, pos, "at-call "+ac.Pattern+": "+ac.Clause.Text)
 			_ = o
